@@ -29,7 +29,7 @@ storage-level model `Eng.openInst` and the real engine are executed on the same 
 and must agree with `AEngR` operation by operation), and only on histories on which no trigger of an
 open recovery finding has fired: `friendlyFrom` (no allocated-but-empty block at a restart:
 `emptyBlockAllocated`, `scanStopsAtEmptyBlock`), a wall clock that does not step back across a
-restart (`clockRegressionReordersFiles`), no entry larger than `MAX_ALLOC` (`sealThenAllocFail`).
+restart (`clockRegressionReordersFiles`), no entry larger than `MAX_ALLOC` (`sealThenAllocFail`, repaired since).
 Those four regions are known findings with witnesses in corpus/; the third sentence of the
 statement ("any wall-clock behaviour") is false on this tree.  AtLeastOnce restarts (the consumer
 resumes at its last persisted position) are decided by the oracle on the implementation.
